@@ -14,6 +14,9 @@ import (
 // four farmers with arbitrary farmed amounts, natural queue activation, epoch timing with gaps, prices going
 // away and coming back, reserves moving (donations), swap fees arriving, external reward programs.
 
+// denoms the app's SwapFeeDistrDenom moves between (all of them are also deposit denoms of created gauges)
+var feeDenoms = []string{"ucmdx", "ushared", "uddd"}
+
 func pow10(k int) *big.Int { return new(big.Int).Exp(big.NewInt(10), big.NewInt(int64(k)), nil) }
 
 func rndBig(rng *sim.Rng, max *big.Int) *big.Int {
@@ -23,7 +26,7 @@ func rndBig(rng *sim.Rng, max *big.Int) *big.Int {
 	return new(big.Int).Rand(rng.Rand, max)
 }
 
-func driveFixture(rng *sim.Rng, bigMode bool) (*sim.Env, *fixture) {
+func driveFixture(rng *sim.Rng, bigMode, ranged bool) (*sim.Env, *fixture) {
 	t := big.NewInt
 	var cfg fxCfg
 	rew := []string{"urwda", "urwdb", "urwdc", "urwdd", "urwde", "urwdf", "ushared", "uexta", "uextb", "ucmdx", "uddd"}
@@ -69,21 +72,29 @@ func driveFixture(rng *sim.Rng, bigMode bool) (*sim.Env, *fixture) {
 			}
 		}
 	}
+	if ranged { // pool 4: a ranged pool on the pair of pool 1 (both pools' swap-fee gauges draw on one collector)
+		cfg.Pools = append(cfg.Pools, poolCfg{RangedOn: 1, Rx: new(big.Int).Set(cfg.Pools[0].Rx), Ry: new(big.Int).Set(cfg.Pools[0].Ry)})
+	}
 	return newFixture(cfg)
 }
 
 func drive(lg *sim.Log, seed int64, idx, steps int) {
 	rng := sim.NewRng(seed*1000003 + int64(idx)*7919 + 17)
 	bigMode := idx%2 == 1
-	e, fx := driveFixture(rng, bigMode)
+	ranged := idx%4 >= 2
+	e, fx := driveFixture(rng, bigMode, ranged)
 	mode := "small"
 	if bigMode {
 		mode = "big"
+	}
+	if ranged {
+		mode += "+ranged"
 	}
 	r := &runner{lg: lg, run: fmt.Sprintf("drive:%d:%d:%s", seed, idx, mode)}
 	fx.setupExt(e, rng, bigMode)
 	cur := r.node(0, "Init", map[string]interface{}{"mode": mode}, nil, fx.project(e))
 
+	np := len(fx.pools)
 	ownDenoms := []string{"urwda", "urwdb", "urwdc", "urwdd", "urwde", "urwdf"}
 	nextOwn := 0
 	amount := func(small int64, bigDigits int) *big.Int {
@@ -95,10 +106,10 @@ func drive(lg *sim.Log, seed int64, idx, steps int) {
 	dts := []time.Duration{time.Hour, 6 * time.Hour, 12*time.Hour + time.Second, 12 * time.Hour, 13 * time.Hour, 24*time.Hour + time.Second,
 		25 * time.Hour, 30 * time.Hour, 49 * time.Hour, 80 * time.Hour, 6 * time.Second}
 	for k := 0; k < steps; k++ {
-		switch rng.Weighted([]int{12, 22, 10, 34, 4, 3, 3, 9}) {
+		switch rng.Weighted([]int{12, 22, 10, 34, 4, 3, 6, 9, 3}) {
 		case 0: // create gauge
 			a := &createArgs{From: "gc", GType: 1}
-			a.Pool = int64(1 + rng.Intn(3))
+			a.Pool = int64(1 + rng.Intn(np))
 			a.Tot = int64(1 + rng.Intn(6))
 			if rng.Intn(6) == 0 {
 				a.Tot = int64(7 + rng.Intn(40))
@@ -112,8 +123,10 @@ func drive(lg *sim.Log, seed int64, idx, steps int) {
 			if nextOwn < len(ownDenoms) && rng.Intn(5) != 0 {
 				a.Denom = ownDenoms[nextOwn]
 				nextOwn++
-			} else if rng.Intn(4) == 0 {
-				a.Denom = "uddd" // a priced asset, also used by lend reward programs
+			} else if x := rng.Intn(6); x == 0 {
+				a.Denom = "uddd" // a priced asset, also used by lend reward programs and as swap-fee distribution denom
+			} else if x == 1 {
+				a.Denom = "ucmdx" // the default swap-fee distribution denom
 			} else {
 				a.Denom = "ushared"
 			}
@@ -144,20 +157,20 @@ func drive(lg *sim.Log, seed int64, idx, steps int) {
 			cur = r.node(cur, "CreateGauge", a, nil, fx.project(e))
 		case 1: // farm
 			u := fx.cfg.Farmers[rng.Intn(len(fx.cfg.Farmers))]
-			p := 1 + rng.Intn(3)
+			p := 1 + rng.Intn(np)
 			amt := amount(400, 8)
 			fa := fx.farm(e, u, p, amt, false)
 			cur = r.node(cur, "Farm", fa, nil, fx.project(e))
 		case 2: // unfarm
 			u := fx.cfg.Farmers[rng.Intn(len(fx.cfg.Farmers))]
-			p := 1 + rng.Intn(3)
+			p := 1 + rng.Intn(np)
 			for try := 0; try < 6; try++ { // prefer somebody who farms
 				_, a := e.App.LiquidityKeeper.GetActiveFarmer(e.Ctx, fx.app, uint64(p), sim.Addr(u))
 				_, q := e.App.LiquidityKeeper.GetQueuedFarmer(e.Ctx, fx.app, uint64(p), sim.Addr(u))
 				if a || q {
 					break
 				}
-				u, p = fx.cfg.Farmers[rng.Intn(len(fx.cfg.Farmers))], 1+rng.Intn(3)
+				u, p = fx.cfg.Farmers[rng.Intn(len(fx.cfg.Farmers))], 1+rng.Intn(np)
 			}
 			amt := amount(400, 8)
 			if rng.Intn(3) == 0 { // everything that is farmed (active + queued)
@@ -193,7 +206,7 @@ func drive(lg *sim.Log, seed int64, idx, steps int) {
 			}
 			cur = r.node(cur, "Price", map[string]interface{}{"asset": ai + 1, "kind": kind}, nil, fx.project(e))
 		case 5: // reserves move (donation to a pool's reserve account)
-			p := rng.Intn(3)
+			p := rng.Intn(np)
 			pc := fx.cfg.Pools[p]
 			side := pc.Quote
 			if rng.Intn(2) == 0 {
@@ -204,13 +217,29 @@ func drive(lg *sim.Log, seed int64, idx, steps int) {
 			must(err)
 			cur = r.node(cur, "Donate", map[string]interface{}{"p": p + 1}, nil, fx.project(e))
 		case 6: // swap fees accumulate at a pair's fee collector (paid out by the pool's swap-fee gauge)
-			p := rng.Intn(3)
+			p := rng.Intn(np)
 			amt := amount(3000, 10)
-			err := e.App.BankKeeper.SendCoins(e.Ctx, sim.Addr("gc"), fx.pairs[p].GetSwapFeeCollectorAddress(), sdk.NewCoins(coin("ucmdx", amt)))
+			gp, err := e.App.LiquidityKeeper.GetGenericParams(e.Ctx, fx.app)
 			must(err)
-			cur = r.node(cur, "SwapFee", map[string]interface{}{"p": p + 1, "amt": sim.Limbs(amt)}, nil, fx.project(e))
+			denom := gp.SwapFeeDistrDenom // fees are converted to the current distribution denom; sometimes a stale denom is left behind
+			if rng.Intn(6) == 0 {
+				denom = feeDenoms[rng.Intn(len(feeDenoms))]
+			}
+			err = e.App.BankKeeper.SendCoins(e.Ctx, sim.Addr("gc"), fx.pairs[p].GetSwapFeeCollectorAddress(), sdk.NewCoins(coin(denom, amt)))
+			must(err)
+			cur = r.node(cur, "SwapFee", map[string]interface{}{"p": p + 1, "amt": sim.Limbs(amt), "denom": denom}, nil, fx.project(e))
 		case 7: // external reward programs and the positions they pay
 			cur = fx.extStep(r, e, rng, cur, bigMode)
+		case 8: // governance changes what the swap-fee gauges read: distribution denom and burn rate
+			distr, burn := "", int64(-1)
+			if rng.Intn(4) != 0 {
+				distr = feeDenoms[rng.Intn(len(feeDenoms))]
+			}
+			if distr == "" || rng.Intn(3) == 0 {
+				burn = []int64{0, 0, 100, 500}[rng.Intn(4)]
+			}
+			fx.setGov(e, distr, burn)
+			cur = r.node(cur, "Gov", map[string]interface{}{"distr": distr, "burn": burn}, nil, fx.project(e))
 		}
 	}
 }
